@@ -16,7 +16,7 @@ FUNCTIONS_ENCODED = ['pgpy.pgp.PGPKeyring.load', 'pgpy.pgp.PGPKeyring._add_key',
                      'pgpy.pgp.PGPKeyring.key', 'pgpy.pgp.PGPKeyring.__contains__', 'pgpy.pgp.PGPKeyring.fingerprints',
                      'pgpy.pgp.PGPKeyring.__len__']
 STUBS = ['PGPKey -> subclass with fingerprint / created / is_public / userids / subkeys / parent as plain attributes (no packet parsing)']
-OUTSIDE = ['loading from binary / armored text / files (that is key parsing: C14); selection by message or signature object',
+OUTSIDE = ['loading from files and lists; selection by message or signature object; real keys beyond the two of O19.3 (the symbolic histories O19.1/O19.2 use attribute stand-ins)',
            'histories longer than the stated number of steps; more than three keys']
 ASSUMPTIONS = []
 
@@ -230,7 +230,97 @@ def hist_pair5(u: int, a: int, b: int, c: int, c0: int, c1: int) -> bool:
     return run_history(u, [0, 1, PAIR[a], PAIR[b], PAIR[c]], c0, c1, 0, False)
 
 
-SANITY = ['hist_u0(0, 1, 3, 0, 3, 0, 0, 0)', 'hist_u0(0, 1, 2, 4, 9, 1, 0, 1)', 'hist_u0(2, 5, 2, 1, 0, 0, 1, 0)', 'hist_u0(0, 1, 2, 6, 9, 0, 0, 0)',
+# ------------------------------------------------------------------------------------ O19.3 real keys loaded from octets
+from vlib.h import native
+from harness import sigfix as _sf
+
+RK = _sf.new_key('real one <r@x>', sub=True)
+RK2 = _sf.new_key('real one <r@x>', sub=False)            # another key sharing the whole identity
+SEC, PUBB = bytes(RK.__bytearray__()), bytes(RK.pubkey.__bytearray__())
+SEC2 = bytes(RK2.__bytearray__())
+BLOBS = (PUBB, SEC, SEC + PUBB, PUBB + SEC, SEC2, SEC2 + PUBB)
+BLOB_HALVES = ((('a', True),), (('a', False),), (('a', False), ('a', True)), (('a', True), ('a', False)), (('b', False),), (('b', False), ('a', True)))
+
+
+def _real_history(ops, armored):
+    """ops 0..5: load blob i; 6: unload the public half of key a; 7: unload its private half; 8: unload key b"""
+    kr = PGPKeyring()
+    cnt = {('a', True): 0, ('a', False): 0, ('b', False): 0}       # every load makes new objects: the same half may be present several times
+    fpa, fpb = RK.fingerprint, RK2.fingerprint
+    suba = list(RK.subkeys.values())[0].fingerprint
+    for o in ops:
+        if o < 6:
+            blob = BLOBS[o]
+            if armored and o < 2:
+                blob = str(RK.pubkey if o == 0 else RK)
+            kr.load(blob)
+            for h in BLOB_HALVES[o]:
+                cnt[h] += 1
+        else:
+            want = (('a', True), ('a', False), ('b', False))[o - 6]
+            if cnt[want]:
+                f = fpa if want[0] == 'a' else fpb
+                objs = [k for k in kr._keys.values() if k.is_primary and k.fingerprint == f and k.is_public == want[1]]
+                if len(objs) != cnt[want]:
+                    return False
+                kr.unload(objs[0])
+                cnt[want] -= 1
+        have = {h for h, c in cnt.items() if c}
+        # --- the index after every step
+        for half, flag in (('public', True), ('private', False)):
+            want_fps = set()
+            if ('a', flag) in have:
+                want_fps |= {fpa, suba}
+            if ('b', flag) in have:
+                want_fps.add(fpb)
+            if kr.fingerprints(keyhalf=half) != want_fps:
+                return False
+        a_loaded = ('a', True) in have or ('a', False) in have
+        b_loaded = ('b', False) in have
+        for f, present in ((fpa, a_loaded), (suba, a_loaded), (fpb, b_loaded)):
+            for alias in (f, f.keyid, f.shortid, spaced(f)):
+                if (alias in kr) != present:
+                    return False
+                if present:
+                    with kr.key(alias) as got:
+                        if got.fingerprint != f:
+                            return False
+        for ident in ('real one', 'r@x'):
+            if (ident in kr) != (a_loaded or b_loaded):
+                return False
+            if a_loaded or b_loaded:
+                with kr.key(ident) as got:
+                    if got.fingerprint not in ((fpa,) if a_loaded else ()) + ((fpb,) if b_loaded else ()):
+                        return False
+    return True
+
+
+@ob('O19.3', 'real keys loaded from octets and armored text: both halves of one key (in separate blobs or in ONE blob, either order) and a second key sharing its identity; '
+             'after every step fingerprints(keyhalf=...) report exactly the loaded halves with their subkeys, and fingerprint / key id / short id / spaced fingerprint / name / e-mail select a loaded key carrying them',
+    'histories of 1..3 steps over {load public blob, load secret blob, load secret+public in one blob, load public+secret in one blob, load the second key, load second key + public of the first, '
+    'unload public half, unload private half, unload second key}; binary or armored for the single-key blobs; each path concrete and native', cond_timeout={'q': 280, 't': 900},
+    partitions={'q': [['n <= 2']] + [['n == 3', 'o0 == %d' % a] for a in range(9)], 't': [['n <= 2']] + [['n == 3', 'o0 == %d' % a] for a in range(9)] + [['n == 4', 'o0 == %d' % a, 'o1 == %d' % b] for a in range(9) for b in range(9)]})
+def real_blob_history(n: int, o0: int, o1: int, o2: int, armored: bool, o3: int = 0) -> bool:
+    """
+    pre: 1 <= n <= 4
+    pre: 0 <= o0 < 9 and 0 <= o1 < 9 and 0 <= o2 < 9 and 0 <= o3 < 9
+    pre: n >= 2 or o1 == 0
+    pre: n >= 3 or o2 == 0
+    pre: n >= 4 or o3 == 0
+    post: _
+    """
+    ops = []
+    for j, sym in enumerate((o0, o1, o2, o3)):
+        if j < n:
+            for k in range(9):
+                if sym == k:
+                    ops.append(k)
+    arm = True if armored else False
+    with native():
+        return _real_history(ops, arm)
+
+
+SANITY = ['real_blob_history(3, 2, 6, 7, False)', 'real_blob_history(3, 3, 7, 0, True)', 'real_blob_history(3, 5, 6, 8, False)', 'real_blob_history(2, 1, 0, 0, True)', 'real_blob_history(3, 0, 1, 6, False)'] + ['hist_u0(0, 1, 3, 0, 3, 0, 0, 0)', 'hist_u0(0, 1, 2, 4, 9, 1, 0, 1)', 'hist_u0(2, 5, 2, 1, 0, 0, 1, 0)', 'hist_u0(0, 1, 2, 6, 9, 0, 0, 0)',
           'hist_u1(0, 1, 2, 5, 4, 0, 0, 0)', 'hist_u1(2, 0, 5, 2, 9, 1, 1, 0)', 'hist_u2(0, 1, 2, 3, 4, 0, 0, 1, False)',
           'hist_u2(1, 0, 4, 1, 3, 0, 0, 0, True)', 'hist_u2(0, 2, 1, 5, 9, 1, 0, 0, False)', 'hist_pair5(0, 2, 0, 2, 0, 0)', 'hist_pair5(2, 2, 0, 2, 1, 0)',
           'hist_pair5(0, 3, 1, 3, 0, 1)', 'hist_u3(0, 1, 3, 6, 9, 0, 0, 0)', 'hist_u3(0, 1, 2, 3, 4, 1, 1, 0)', 'hist_pair5(3, 2, 0, 2, 0, 0)', 'hist_pair5(3, 2, 3, 0, 1, 1)']
